@@ -27,6 +27,7 @@ EXPLANATION = (
     ' (M9) the classification loop of merge() hands every compound to a collector on every path; (M10) explicit hydrogen counts are changed only by the hydrogen-fixing helper of MergeRule.apply.'
     ' (M11) lists joined by position derive from the same selection (shared with C06-B3); (M12) no state shared between calls on the merge path, memo tables keyed by a projection of a parameter included (shared with C06-B4).'
     ' (M13) nobody edits the container that is a parameter default of the merge stage (shared with C06-B13). (M14) Compound.concat joins the SMILES of every part with multiplicity, no set.'
+    ' (M15) on the merge path compounds are not collected in a dict / set keyed by their SMILES.'
 )
 ASSUMPTIONS = ["RDKit CombineMols/AddBond conserve atoms (library)"]
 
